@@ -300,6 +300,15 @@ def find_counterexample(prop, violation, cfg, work):
         if re.search(f['match'], fn):
             scratch = make_scratch(work)
             weave(scratch, [f['file']])
+            if f.get('native'):
+                # a native sampling finder: a #[test] that walks a stated family of inputs on the real code and panics
+                # on the first disagreement with an independent reference (never decides; only supplies a replay)
+                rep = native_replay(scratch, f['replay'], '')
+                if rep['failed']:
+                    return dict(harness=f['replay'], failed_check='native sampling finder', input_hex=None,
+                                replay_test=f['replay'], replayed_natively=True, native_output=rep['tail'],
+                                finder_bound=f.get('bound'))
+                return None
             return find_and_replay(scratch, f, violation.get('where'))
     return None
 
